@@ -45,7 +45,7 @@ def gen_group(rng, thorough):
     return items
 
 
-def child(job, scratch, tag, hashseed, hashcache, counter=None, timeout=180):
+def child(job, scratch, tag, hashseed, hashcache, counter=None, timeout=600):
     jp = scratch / f"job-{tag}.json"
     jp.write_text(env.jdump(job))
     e = dict(os.environ)
@@ -148,7 +148,7 @@ def group_case(case, wctx):
 
 def run(ctx):
     quick = ctx.tier == "quick"
-    ng = 8 if quick else 160
+    ng = 8 if quick else 96
     ctx.rule = (f"groups of {NVAL + 6} items (generated values incl. frozensets of frozensets and permuted dict/set "
                 "orders, xor-group tasks as values, a file-input task) whose checksum and value hash are computed in "
                 "4 (thorough: 6) fresh interpreters with different PYTHONHASHSEED / insertion order / pickling, plus "
@@ -156,7 +156,7 @@ def run(ctx):
                 "item; distinct = distinct items")
     cases = [{"g": g} for g in range(ng)]
     ctx.record_all(ctx.pmap("vp.props.c07:group_case", cases, nproc=8 if quick else 16,
-                            timeout=400 if quick else 2400))
+                            timeout=900 if quick else 3000))
     ctx.assumptions = ["PYTHONHASHSEED=random children draw their seed from the OS (not reproducible; the fixed "
                        "seeds 0,1,2 are)", "file inputs keep their path across sessions"]
 
